@@ -194,7 +194,7 @@ def run_config(chk, config):
     stats = {"back": 0}
 
     def on_loop(frame, head, H, res, havoc, lid):
-        if not frame.key == a.avp_greedy["key"]:
+        if not in_ctx(frame, a.avp_greedy) or not record_loop(res, H.ntrace):
             return
         for b in res["back"]:
             stats["back"] += 1
@@ -210,9 +210,21 @@ def run_config(chk, config):
             if vi == 0 and not eng.ent(b, c_eq(hv.vendor, Lin.const(0))):
                 probs.append("an AVP is accepted although its vendor id is not proven 0")
             o1name, o1off = hv.o1src
+            Hb = hs["avp_header"]["flags_octet"]["H"]
             for (sym, k) in b.bitfacts:
-                if sym == o1name and o1off <= k < o1off + 6 and k - o1off != hs["avp_header"]["flags_octet"]["H"]:
+                if sym == o1name and o1off <= k < o1off + 6 and k - o1off != Hb:
                     probs.append("decoder branches on AVP flag bit %s (only H may influence the result)" % (k - o1off))
+            # the same through a numeric test of a group of flag bits (e.g. `flags >> 1 != 0`)
+            defs = b.ghost.get("defs", set())
+            for c in b.cons:
+                if c[0].key() in defs:
+                    continue
+                for sym in c[0].t:
+                    sp = layout.bitspan(eng, b, Lin.sym(sym)) if sym in layout._divdefs(b) else None
+                    if sp is not None and sp[0] == o1name and sp[1] >= o1off and sp[1] + sp[2] <= o1off + 6 \
+                            and not (sp[1] == o1off + Hb and sp[2] == 1):
+                        probs.append("decoder branches on AVP flag bits %d..%d as a number (only H may influence the result)" % (
+                            sp[1] - o1off, sp[1] - o1off + sp[2] - 1))
     eng.hooks["loop"] = on_loop
     eng.analyse(a.avp_greedy["key"], name="AVP::try_read_greedy[%s]" % config)
     chk.oblig(not probs and stats["back"] >= 39, "avp-header-rules | AVP::try_read_greedy",
